@@ -65,6 +65,8 @@ SETTERS = [
     # resources that only ever grow during a run: a source line far longer than the initial line buffer, a deep macro nest
     "\tcpu 6809\n\tfcb " + ",".join(["1"] * 300) + " ; " + "x" * 900, "\tcpu z80\n\tdb " + ",".join(["2"] * 330) + "\n; " + "x" * 3000,
     "\tcpu z80\nlng\tmacro p\n\tdb " + "1," * 300 + "p\n\tendm\n\tlng " + "9" * 900,
+    # targets that take over names of the macro processor (SHIFT, SWITCH, PAGE are instructions there)
+    "\tcpu kenbak\n\tnop", "\tcpu kenbak\n\tshift left,1,a", "\tcpu msm5054\n\tnop", "\tcpu st7\n\tnop",
     # constructs left open at several levels at the end of the source
     "\tphase 256\n\tnop\n\tphase 512\n\tnop", "\tsection a1\n\tsection b1\n\tnop", "\tif 1\n\tif 1\n\tnop", "\tsave\n\tlisting off\n\tsave\n\tcpu z80",
     "\tsegment data\n\tphase 64\n\tsegment code\n\tphase 128",
@@ -108,6 +110,7 @@ PROBES = {
     "6809dw": "\tcpu 6809\n\tlda #1\n\tdw $1234,$5678\n\tdb 1\n\tnop\n", "6800dw": "\tcpu 6800\n\tnop\n\tdw $1234\n\tdb 2\n",
     "6805dw": "\tcpu 6805\n\tnop\n\tdw $1234\n", "hc12dw": "\tcpu 68hc12\n\tnop\n\tdw $1234\n", "hc16dw": "\tcpu 68hc16\n\tnop\n\tdw $1234\n",
     "rs08dw": "\tcpu 68rs08\n\tnop\n\tdw $1234\n", "6804dw": "\tcpu 6804\n\tnop\n\tdw $1234\n",
+    "macshift": "\tcpu 8051\nsm\tmacro a,b,c\n\tdb a\n\tshift\n\tdb a\n\tshift\n\tdb a\n\tendm\n\tsm 1,2,3\n\tswitch 2\n\tcase 2\n\tdb 9\n\tendcase\n\tpage 30\n",
     "st6": "\tcpu st6210\n\tword 1234h,5678h\n\tbyte 1\n\tascii \"ab\"\n\tld a,12h\n",
     "6805": "\tcpu 6805\n\tfdb $1234\n\tdw $5678\n\tlda $12\n\tlda $1234\n",
     "6811": "\tcpu 6811\n\tfdb $1234\n\tdw $5678\n\tadr $9abc\n\tldaa $12\n\tldaa $1234\n",
